@@ -286,6 +286,19 @@ def snap(x):
     return (type(x).__name__, repr(x))
 
 
+def scribble(arr):
+    """the caller writes into a result: every element gets another value (any dtype, any memory layout)"""
+    if arr.dtype.names:
+        for n in arr.dtype.names:
+            scribble(arr[n])
+    elif arr.dtype.kind == "b":
+        arr[...] = ~arr
+    elif arr.dtype.kind in "iu":
+        arr[...] = arr ^ 0x55
+    else:
+        arr[...] = np.where(np.isnan(arr), 1.5, np.nan)
+
+
 class Args:
     """the argument objects of one merge: the container of the images (list or tuple), the offsets object, fill and mode,
     and a picture of every one of them from before the first call.  `unchanged()` compares after a call, returning or
@@ -568,8 +581,8 @@ class C11(Prop):
             ndim, n = rng.choice([1, 2, 2]), min(n, 3)
         if geom == "long" or (geom == "stack" and rng.random() < 0.3):  # lists longer than a handful
             ndim, n = min(ndim, 2), rng.randint(7, 40)
-            if rng.random() < 0.12:  # several hundred images (visit counters, chunked loops)
-                ndim, n = 1, rng.randint(300, 600)
+            if rng.random() < 0.3:  # several hundred images on one footprint (visit counters, chunked loops)
+                ndim, n, geom = 1, rng.randint(300, 600), "stack"
         if geom == "free" and not structured and rng.random() < 0.04:  # more dimensions than the property names
             ndim, n = rng.choice([4, 5]), min(n, 3)
         special = rng.random() < 0.4  # images drawn from the value classes
@@ -886,6 +899,25 @@ class C11(Prop):
                 {"off": [-5, 9], "shape": [16, 64], "data": [None if i % 5 == 0 else 0 if i % 3 == 0 else i % 13 for i in range(16 * 64)]}]}
             yield {"kind": "plain", "ndim": 1, "mode": mode, "fill": 40, "arrays": [
                 {"off": [i % 9], "shape": [3], "data": [i - 20, None if i % 4 == 0 else 0, 20 - i]} for i in range(40)]}
+        # structured: three inputs whose field sets overlap pairwise (each lacks one name of the union), in every order of
+        # the inputs and with the names in both orders inside an input; a name only the first / middle / last input has
+        fs = lambda nm, data: {"name": nm, "dtype": "f8", "data": data}
+        s1 = {"off": [0, 0], "shape": [1, 2], "fields": [fs("A", [4, None]), fs("B", [8, 12])]}
+        s2 = {"off": [0, 1], "shape": [1, 2], "fields": [fs("C", [None, 20]), fs("B", [0, -4])]}
+        s3 = {"off": [-1, 1], "shape": [2, 1], "fields": [fs("C", [16, 4]), fs("A", [None, 28])]}
+        only = lambda nm, off: {"off": off, "shape": [1, 1], "fields": [fs(nm, [36])]}
+        for i, perm in enumerate(itertools.permutations([s1, s2, s3])):
+            for mode in ("replace", "mean", "sum"):
+                fill = (None, 0, 40)[(i + len(mode)) % 3]
+                st = {"kind": "structured", "ndim": 2, "mode": mode, "fill": fill, "meta": {"t": [4, -6]}}
+                yield {**st, "arrays": list(perm)}
+                yield {**st, "arrays": [{**a, "fields": a["fields"][::-1]} for a in perm][:2 + i % 2]}
+        for mode in ("replace", "mean", "sum"):
+            st = {"kind": "structured", "ndim": 2, "mode": mode, "fill": None, "meta": {"t": [-2, 3]}}
+            yield {**st, "arrays": [only("Z", [0, 0]), s1, s2]}
+            yield {**st, "arrays": [s1, only("Z", [0, 1]), s2]}
+            yield {**st, "arrays": [s1, s2, only("Z", [0, 2])], "fill": 40}
+            yield {**st, "arrays": [s1], "fill": 0}
         # structured: the same name with two dtypes; integer and float32 fields, first array with / without the field
         fa = lambda dt, data: {"name": "A", "dtype": dt, "data": data}
         fb = lambda dt, data: {"name": "B", "dtype": dt, "data": data}
@@ -1047,7 +1079,7 @@ class C11(Prop):
                 feats.add("layout:" + a["layout"])
         if case["kind"] == "plain":
             return self.eval_plain(register, case, ctx, feats)
-        return self.eval_structured(register, case, ctx, fill, dfill, feats)
+        return self.eval_structured(register, case, ctx, feats)
 
     def eval_plain(self, register, case, ctx, feats):
         ndim = case["ndim"]
@@ -1127,7 +1159,7 @@ class C11(Prop):
         impl["earlier_results_kept"] = all(r.tobytes() == b for r, b in kept)
         # the result is the caller's: writing into it does not reach an input
         if first_raw is not None and first_raw.flags.writeable and first_raw.size:
-            first_raw.view(np.uint8)[...] = 0xA5
+            scribble(first_raw)
             args.before_edit_ok = args.unchanged()
             impl["inputs_unchanged_by_editing_the_result"] = args.before_edit_ok and not aliased
             model["inputs_unchanged_by_editing_the_result"] = spec["inputs_unchanged_by_editing_the_result"] = True
@@ -1270,10 +1302,14 @@ class C11(Prop):
         feats |= geom_feats(arrs)
         return feats
 
-    def eval_structured(self, register, case, ctx, fill, dfill, feats):
+    def eval_structured(self, register, case, ctx, feats, variant=False):
+        """one structured merge against the Lean model (`variant`: a translated / reordered form of a case, evaluated
+        without legs of its own)"""
         import warnings
 
         ndim, mode = case["ndim"], case["mode"]
+        fq = case["fill"]
+        dfill = None if fq is None else core.rat(Fraction(0 if fq == "-0" else fq, 4))
         # exact arithmetic: the values of every field are representable in its dtype and their sums are exact in it
         for a in case["arrays"]:
             for f in a["fields"]:
@@ -1311,11 +1347,14 @@ class C11(Prop):
         if args.shared():
             feats.add("alias:same-object-twice")
 
+        kept = []
+
         def call(offs):
             try:
                 with warnings.catch_warnings():
                     warnings.simplefilter("ignore", RuntimeWarning)  # NaN cast to an integer field (pixel not compared)
                     res = register.overlap_structured_arrays(args.arrays, offs, fill=args.fill, mode=args.mode)
+                kept.append((res, res.tobytes()))
                 return {"fields": [{"name": n, "dtype": res.dtype[n].str.lstrip("<=|"), "shape": list(res.shape),
                                     "data": [impl_px(res.dtype[n].str.lstrip("<=|"), v) for v in res[n].ravel()]}
                                    for n in res.dtype.names]}
@@ -1329,6 +1368,12 @@ class C11(Prop):
             again = call(args.offsets)
             unchanged = unchanged and args.unchanged()
             feats.add("calls:second-call-on-same-objects")
+        # results handed out earlier stay as they were; writing into a result does not reach an input
+        results_ok = all(r.tobytes() == b for r, b in kept)
+        if kept and kept[0][0].size and kept[0][0].flags.writeable:
+            aliased = any(np.shares_memory(kept[0][0], b) for _, b in args.pairs)
+            scribble(kept[0][0])
+            results_ok = results_ok and not aliased and args.unchanged()
         rep = ctx.driver.call("c11.structuredD", mode=mode, fill=dfill, ndim=ndim,
                               arrays=[{"off": a["off"], "shape": a["shape"],
                                        "fields": [{"name": f["name"], "dtype": f.get("dtype", "f8"), "data": enc_data(f["data"])}
@@ -1369,6 +1414,26 @@ class C11(Prop):
         dts = {f.get("dtype", "f8") for a in case["arrays"] for f in a["fields"]}
         names = {f["name"] for a in case["arrays"] for f in a["fields"]}
         feats.add("disjoint-fields" if any(set(f["name"] for f in a["fields"]) != names for a in case["arrays"]) else "same-fields")
+        sets = [[f["name"] for f in a["fields"]] for a in case["arrays"]]
+        if len(sets) > 1:
+            if set(sets[0]) != names:
+                feats.add("fields:missing-from-first")
+            if set(sets[-1]) != names:
+                feats.add("fields:missing-from-last")
+            if any(set(x) != names for x in sets[1:-1]):
+                feats.add("fields:missing-from-middle")
+            if any(not set(x) & set(y) for x in sets for y in sets):
+                feats.add("fields:two-inputs-share-no-name")
+            for x in sets:
+                for y in sets:
+                    common = [n for n in x if n in y]
+                    if common != [n for n in y if n in x]:
+                        feats.add("fields:order-differs-between-inputs")
+            first_seen = []
+            for x in sets:
+                first_seen += [n for n in x if n not in first_seen]
+            if first_seen != sorted(first_seen):
+                feats.add("fields:union-not-in-name-order")
         by_name = {}
         for a in case["arrays"]:
             for f in a["fields"]:
@@ -1400,21 +1465,32 @@ class C11(Prop):
                                        undetermined=True, hyp=False,
                                        features=feats | {"dtype:clash-handled-differently-from-model(recorded only)"})
         meta_i = meta_s = None
-        if case.get("meta") and "fields" in got:
+        if case.get("meta") and not variant and "fields" in got:
+            # the same merge translated, and with the inputs in every order (<= 4 inputs): each judged against the Lean
+            # specification of that call, per field (theorems structured_translation_invariant / structured_perm_invariant
+            # say the specifications agree)
             t = case["meta"]["t"]
-            moved = [tuple(o + d for o, d in zip(a["off"], t)) for a in case["arrays"]]
-            second = mask(call(moved))
-            meta_i = {"translation": {k: v for k, v in second.items() if k != "msg"} == impl_cmp}
-            meta_s = {"translation": True}
+            base = {k: v for k, v in case.items() if k not in ("meta", "repeat")}
+
+            def judged_ok(c):
+                o = self.eval_structured(register, c, ctx, set(), variant=True)
+                return True if o["undetermined"] else bool(o["spec_ok"] and o["model_ok"])
+
+            meta_i = {"translation": judged_ok({**base, "arrays": [{**a, "off": [o + d for o, d in zip(a["off"], t)]}
+                                                                    for a in case["arrays"]]})}
             feats.add("meta:translation")
-        impl = {"result": impl_cmp, "inputs_unchanged": unchanged, "meta": meta_i}
-        extra = {}
+            if len(case["arrays"]) <= 4:
+                meta_i["permutations"] = all(judged_ok({**base, "arrays": list(p)}) for p in itertools.permutations(case["arrays"]))
+                feats.add("meta:permutations")
+            meta_s = {k: True for k in meta_i}
+        impl = {"result": impl_cmp, "inputs_unchanged": unchanged, "results_are_the_callers": results_ok, "meta": meta_i}
+        extra = {"results_are_the_callers": True}
         if again is not None:  # the second call on the same objects returned the same
             impl["second_call_same"] = again
-            extra = {"second_call_same": True}
-        spec_ok = (unchanged and again is not False and (meta_i == meta_s)
+            extra["second_call_same"] = True
+        spec_ok = (unchanged and results_ok and again is not False and (meta_i == meta_s)
                    and (not hyp or core.canon(key(impl_cmp)) == core.canon(key(spec))))
-        model_ok = unchanged and again is not False and core.canon(impl_cmp) == core.canon(model)
+        model_ok = unchanged and results_ok and again is not False and core.canon(impl_cmp) == core.canon(model)
         return outcome(impl, {"result": model, "inputs_unchanged": True, "meta": meta_s, **extra},
                        {"result": key(spec), "inputs_unchanged": True, "meta": meta_s, **extra},
                        spec_ok=spec_ok, model_ok=model_ok, hyp=hyp, features=feats)
@@ -1447,9 +1523,22 @@ class C11(Prop):
             if k in case:
                 yield {k2: v for k2, v in case.items() if k2 != k}
         for i, a in enumerate(arrs):
-            for k in ("layout", "negzero"):
+            for k in ("layout", "negzero", "dtype"):
                 if k in a:
                     yield {**case, "arrays": arrs[:i] + [{k2: v for k2, v in a.items() if k2 != k}] + arrs[i + 1:]}
+        # histories: fewer calls, fewer edits; the second merge of a tiling; infinite values made finite
+        if case.get("then"):
+            then = case["then"]
+            yield {**case, "then": then[:-1]} if len(then) > 1 else {k: v for k, v in case.items() if k != "then"}
+            for j, st in enumerate(then):
+                for e in range(len(st.get("edits", []))):
+                    yield {**case, "then": then[:j] + [{**st, "edits": st["edits"][:e] + st["edits"][e + 1:]}] + then[j + 1:]}
+        if case.get("feed"):
+            yield {k: v for k, v in case.items() if k != "feed"}
+            if len(case["feed"]) > 1:
+                yield {**case, "feed": case["feed"][:-1]}
+        if case["kind"] == "plain" and any(isinstance(v, str) for a in arrs for v in a["data"]):
+            yield {**case, "arrays": [{**a, "data": [4 if v == "inf" else -4 if v == "-inf" else v for v in a["data"]]} for a in arrs]}
         if case["kind"] == "plain":
             for i, a in enumerate(arrs):
                 for ax in range(case["ndim"]):
